@@ -1,6 +1,6 @@
 (* C15 — tuning is negotiated as documented (and then obeyed: see the links below).
    This file only pins statements. *)
-From Amq Require Import Lib.Base Gen.Consts Model.Tune Spec.Tune Proofs.Tune.
+From Amq Require Import Lib.Base Gen.Consts Model.Tune Spec.Tune Proofs.Tune Gen.Src Proofs.TuneSrc.
 
 (* the constant the crate compiles in (regenerated from the crate on every run) is the
    protocol's frame-min-size *)
@@ -36,6 +36,17 @@ Example C15_example :
   make_tune_ok 0 0 5 0 0 9 = TuneOk 65535 4294967295 5.
 Proof. vm_compute. repeat split; reflexivity. Qed.
 
+(* THE MODEL IS THE SOURCE: coq/Gen/Src.v is translated from src/connection_options.rs
+   (fn make_tune_ok with its nested functions) on every run by tools/rs2v.py; the translated
+   function and the hand-written model are equal on ALL inputs, so the theorems of this file
+   are theorems about the translated source.  A change to the function changes Gen/Src.v and
+   this obligation is re-proved against it (or breaks). *)
+Theorem C15_source_is_model : forall c_cm c_fm c_hb s_cm s_fm s_hb,
+  gen_make_tune_ok c_cm c_fm c_hb s_cm s_fm s_hb = to_rs (make_tune_ok c_cm c_fm c_hb s_cm s_fm s_hb).
+Proof. exact source_is_model. Qed.
+
+Check C15_source_is_model : forall c_cm c_fm c_hb s_cm s_fm s_hb,
+  gen_make_tune_ok c_cm c_fm c_hb s_cm s_fm s_hb = to_rs (make_tune_ok c_cm c_fm c_hb s_cm s_fm s_hb).
 Check C15_frame_min : c_frame_min_size = 4096.
 Check C15_negotiation : forall c_cm c_fm c_hb s_cm s_fm s_hb cm fm hb,
   in_u16 c_cm -> in_u32 c_fm -> in_u16 c_hb -> in_u16 s_cm -> in_u32 s_fm -> in_u16 s_hb ->
@@ -50,6 +61,7 @@ Check C15_floor : forall c_cm c_fm c_hb s_cm s_fm s_hb,
   (c_frame_min_size <= fm <->
    exists cm hb, make_tune_ok c_cm c_fm c_hb s_cm s_fm s_hb = TuneOk cm fm hb).
 
+Print Assumptions C15_source_is_model.
 Print Assumptions C15_frame_min.
 Print Assumptions C15_negotiation.
 Print Assumptions C15_floor.
